@@ -39,7 +39,8 @@ def run(tier):
                "doubles, ext byte strings), alone and in 4 container shapes, through JSON (4 float formats x 5 precisions, bignum and byte "
                "string formats, NaN/Inf substitutes), CBOR (plain, packed+typed arrays), MessagePack, UBJSON, BSON, CSV, TOON encoders and "
                "as<T>() conversions; and every encoder into a std::ostream with 3 value shapes whose content crosses the sink's 16384-byte "
-               "buffer end at every one of 81 alignments. Oracle: terminates; only json_exception-family exceptions or error codes; no sanitizer report; no "
+               "buffer end at every one of 81 alignments; and every reader (JSON, CSV, CBOR definite and indefinite, MessagePack, UBJSON counted "
+               "and uncounted, BSON) piped straight into every encoder on 5 documents. Oracle: terminates; only json_exception-family exceptions or error codes; no sanitizer report; no "
                "leak. non-trivial = cases in which every entry point behaved.")
     ck.assumptions = ["each case runs in a forked child; a crash, fatal sanitizer report or time-out is attributed to the case whose index the child had published",
                       "leak = allocation count not restored after the call, confirmed by an immediate second run of the same call (one-time static initialisation is not a leak)",
